@@ -33,7 +33,18 @@ RULE = (
     "end of a 4-block payload, all 6 slices.  'short_boundary_payloads': SAP UDP/IP header compression, payload lengths 0..12, octets {00,01,7F,80,81,FF} on two of "
     "the first six positions (positions (3,4): all 36 pairs x 2 fills; other position pairs: 3 sampled pairs), all 6 slices.  "
     "'random': Hypothesis draws of all fields, lengths 0..1500 weighted towards block boundaries, payload bytes random / all "
-    "0x00 / all 0xFF / all 0x80 / hash-expanded.  Distinct = (rate, mode, length, blocks, pad, preambles, colour code, "
+    "0x00 / all 0xFF / all 0x80 / hash-expanded.  'consecutive': sequences of 2-3 steps judged in order in one process - a "
+    "transmission and a near-twin of it (equal after zero padding: trailing 00 octets within / beyond the pad, stripped; equal "
+    "prefix: one octet shorter / longer, half, doubled; equal length: first / last octet differs, last octet zero, complemented; "
+    "equal payload with another rate / mode / colour code / preamble count / header fields) in both orders and as base-twin-base, "
+    "the same transmission two and three times, and a transmission after (and between) stimulus steps whose outcome is not "
+    "judged: a call refused for a wrong pad octet count or a wrong user-data type, generate_data_bursts called directly (with "
+    "and without the mode argument), generate_csbk_preambles / generate_data_header_burst / CRC32.calculate on the same datagram, "
+    "the generated Burst objects fed to a terminal or altered by the caller; directed over 6 slices x 9 lengths (two all-zero "
+    "datagrams) x all relations plus Hypothesis (lengths up to 300); every sequence is preceded by one fixed unrelated "
+    "fragmentation; in half of the sequences all transmissions are received by one terminal (each must yield its own started / "
+    "data ended pair), otherwise by a fresh terminal each.  Cases of all sub-checks that held are judged again (framework prelude) after near-twins of the case went "
+    "through the generator (prelude_for).  Distinct = (rate, mode, length, blocks, pad, preambles, colour code, "
     "payload digest); non-trivial = at least 2 data blocks, or confirmed, or pad > 0."
 )
 ASSUMPTIONS = [
@@ -62,6 +73,10 @@ ASSUMPTIONS = [
     "points; no tracker internals such as blocks_expected are read): TransmissionGenerator.generate_full_data_transmission, "
     "DataHeader(...), Burst.as_bytes / from_bytes / data / data_type, CSBK.csbko / blocks_to_follow, Terminal(dmrid, observers), "
     "Terminal.process_incoming_burst, the observer callbacks, DataHeader.pad_octet_count, rate block data / crc32 / crc9_ok",
+    "consecutive: the statement quantifies over single transmissions; a process that generates one transmission after another "
+    "(or calls generate_data_bursts first to learn the pad octet count, as generate_full_data_transmission's assert expects the "
+    "caller to) is the normal use, so each transmission of a sequence must satisfy the statement on its own.  The Burst objects a "
+    "generator call returns belong to the caller ('scribble' / 'feed_objects' stimuli alter them)",
     "pad octets are only counted (announced pad = received octets - payload octets); their value enters the CRC-32 clause",
 ]
 
@@ -151,7 +166,9 @@ def describe_events(events):
     return out
 
 
-def oracle(case):
+def oracle(case, rx=None):
+    """rx = (recorder, terminal) to receive on a terminal that lives longer than this case (sub-check 'consecutive'); the
+    verdict then concerns the notifications delivered while this transmission was fed"""
     L = _lib()
     rate, confirmed = case["rate"], bool(case["confirmed"])
     payload = expand_payload(case["payload"])
@@ -214,13 +231,17 @@ def oracle(case):
             raise Fail("data_bursts_carry_the_requested_rate", {"burst": i, "data_type": parsed[i].data_type.name}, rate_dt.name)
 
     # 4. receive
-    rec = _Recorder.make()
-    _, term = call(L["Terminal"], 2305, [rec])
+    if rx is None:
+        rec = _Recorder.make()
+        _, term = call(L["Terminal"], 2305, [rec])
+    else:
+        rec, term = rx
+    n_before = len(rec.events)
     ts = case.get("ts", 1)
     for b in parsed:
         call(term.process_incoming_burst, b, ts)
 
-    ev = rec.events
+    ev = rec.events[n_before:]
     TT = L["TransmissionTypes"]
     if len(ev) != 2 or ev[0][0] != "started" or ev[0][1] != TT.DataTransmission or ev[1][0] != "data_ended":
         raise Fail("exactly_one_started_and_one_data_ended", describe_events(ev), ["started(DataTransmission)", "data_ended(DataHeader, n blocks)"])
@@ -431,13 +452,13 @@ def drv_header_fields(ctx: Ctx, sub: SubCheck):
     _run_cases(ctx, sub, items)
 
 
-def _strategy():
+def _strategy(max_len=MAX_LEN):
     from hypothesis import strategies as st
 
     def lengths(rc):
         rate, conf = rc
         per = dmr_ref.octets_per_block(rate, conf)
-        top = min(MAX_LEN, dmr_ref.max_payload(rate, conf))
+        top = min(max_len, dmr_ref.max_payload(rate, conf))
         kmax = (top + 4) // per
         boundary = st.builds(lambda k, d: max(0, min(top, k * per - 4 + d)), st.one_of(st.integers(1, 6), st.integers(1, kmax)), st.sampled_from([-1, 0, 1]))
         return st.one_of(boundary, boundary, st.integers(0, min(200, top)), st.integers(0, top), st.sampled_from([0, 1, top]))
@@ -570,6 +591,270 @@ def drv_structured(ctx: Ctx, sub: SubCheck):
     _run_cases(ctx, sub, items)
 
 
+# ---------------------------------------------------------------------------------------------- consecutive transmissions (near-twins)
+#
+# One process fragments many datagrams one after the other.  Whatever the generator (or the receive side) remembers between
+# calls - a "same as last time" memo, a class-level buffer, objects handed out twice - only shows when the *next* input is
+# related to the previous one: equal after zero padding, equal prefix, equal length, equal content with another rate / mode /
+# colour code.  A case of this sub-check is a short sequence of steps; every transmission step is judged by the complete
+# single-transmission oracle above, in order, in one process.  Stimulus steps ("stim") are calls whose result is not judged:
+# rightly refused calls, the sibling entry points on the same datagram, a caller that uses / alters the objects it was given.
+
+STIMULI = ["wrong_poc", "wrong_type", "direct", "direct_default_mode", "preambles", "header_burst", "feed_objects", "scribble", "crc"]
+
+
+def _stimulus(step):
+    """a call into the generator's entry points whose outcome is ignored (stimulus only)"""
+    L = _lib()
+    kind = step["stim"]
+    rate, confirmed = step["rate"], bool(step["confirmed"])
+    payload = expand_payload(step["payload"])
+    rate_cls = {"1/2": L["Rate12Data"], "3/4": L["Rate34Data"], "1": L["Rate1Data"]}[rate]
+    n_ref, pad_ref = dmr_ref.fragment(len(payload), rate, confirmed)
+    DPF = L["DataPacketFormats"]
+    G = L["TransmissionGenerator"]
+
+    def header(poc, btf):
+        return L["DataHeader"](
+            dpf=DPF.DataPacketConfirmed if confirmed else DPF.DataPacketUnconfirmed, sap_identifier=L["SAPIdentifier"][step.get("sap", "IP_PacketData")], is_group=bool(step.get("group", False)),
+            is_response_requested=confirmed, pad_octet_count=poc, llid_destination=step.get("dst", 1), llid_source=step.get("src", 2), full_message_flag=L["FullMessageFlag"](step.get("full", 1)),
+            blocks_to_follow=btf, resynchronize_flag=L["ResynchronizeFlag"](0), send_sequence_number=0, fragment_sequence_number=8 if confirmed else 0)
+
+    try:
+        if kind == "wrong_poc":  # refused: the header announces another pad octet count than the fragmentation yields
+            G.generate_full_data_transmission(packet_type=rate_cls, userdata=payload, data_header=header((pad_ref + 1 + step.get("d", 0)) % 32, min(n_ref, 127)), csbk_count=step.get("preambles", 0),
+                                              colour_code=step.get("cc", 1))
+        elif kind == "wrong_type":  # refused: user data that is neither bytes nor a BytesInterface
+            G.generate_full_data_transmission(packet_type=rate_cls, userdata=payload.hex(), data_header=header(pad_ref, min(n_ref, 127)), csbk_count=0, colour_code=step.get("cc", 1))
+        elif kind in ("direct", "direct_default_mode", "feed_objects", "scribble"):
+            # the sibling entry point a caller uses to learn the pad octet count before it builds the header
+            if kind == "direct_default_mode":
+                bursts, _ = G.generate_data_bursts(packet_type=rate_cls, userdata=payload, colour_code=step.get("cc", 1))
+            else:
+                bursts, _ = G.generate_data_bursts(packet_type=rate_cls, userdata=payload, colour_code=step.get("cc", 1), is_confirmed=confirmed)
+            if kind == "feed_objects":  # the caller hands the generated objects to a terminal, which numbers / labels them in place
+                term = L["Terminal"](2306, [])
+                for b in bursts:
+                    term.process_incoming_burst(b, step.get("ts", 1))
+            elif kind == "scribble":  # the caller re-uses the objects it was given
+                for i, b in enumerate(bursts):
+                    b.data.data = bytes([0xA5 ^ i & 0xFF]) * len(b.data.data)
+                    b.slot_type = L["SlotType"](colour_code=(step.get("cc", 1) + 7) % 16, data_type=b.slot_type.data_type)
+                    b.sequence_no, b.timeslot = 200 + i % 50, 2
+                bursts.reverse()
+                del bursts[1:]
+        elif kind == "preambles":
+            G.generate_csbk_preambles(source_address=step.get("src", 2), target_address=step.get("dst", 1), num_of_preambles=step.get("preambles", 0) + 1, num_of_following_data_blocks=n_ref + 3,
+                                      colour_code=step.get("cc", 1))
+        elif kind == "header_burst":
+            G.generate_data_header_burst(header(pad_ref, min(n_ref, 127))).as_bytes()
+        elif kind == "crc":
+            from okdmr.dmrlib.etsi.crc.crc32 import CRC32
+
+            CRC32.calculate(data=payload + bytes(pad_ref))
+            CRC32.calculate(data=payload)
+        else:
+            raise AssertionError(f"harness: unknown stimulus {kind}")
+    except AssertionError as e:
+        if str(e).startswith("harness:"):
+            raise
+    except Exception:
+        pass
+
+
+NEUTRAL = {"stim": "direct", "rate": "1/2", "confirmed": False, "payload": {"hex": "a55a3cc30ff0e1"}, "cc": 9}
+
+
+def oracle_seq(case):
+    # every sequence starts from the same recent past: one unrelated fragmentation (makes the verdict on a sequence independent
+    # of the sequence judged before it in this process, as far as "last call" state is concerned)
+    _stimulus(NEUTRAL)
+    rx = None
+    if case.get("shared_terminal"):  # one receiving terminal for all transmissions of the sequence
+        rec = _Recorder.make()
+        rx = (rec, call(_lib()["Terminal"], 2305, [rec])[1])
+    for i, step in enumerate(case["seq"]):
+        if "stim" in step:
+            _stimulus(step)
+            continue
+        try:
+            oracle(step, rx)
+        except Fail as f:
+            raise Fail(f.clause, {"step": i, "of": len(case["seq"]), "observed": f.observed}, f.expected, klass=f.klass)
+
+
+def _explicit(case, payload: bytes, **changes):
+    return {**case, "payload": {"hex": payload.hex()}, **changes}
+
+
+def twin_sequences(base):
+    """[(relation label, [steps])] for a base case with an explicit payload: the base and a near-twin in both orders (and
+    base, twin, base), the base repeated, and the base after each stimulus on itself / on a twin."""
+    rate, conf = base["rate"], bool(base["confirmed"])
+    P = expand_payload(base["payload"])
+    base = _explicit(base, P)
+    n, pad = dmr_ref.fragment(len(P), rate, conf)
+    top = dmr_ref.max_payload(rate, conf)
+    twins = []
+    # equal after zero padding / one block more of zeros / trailing zeros stripped
+    for k in sorted({1, max(pad, 1), pad + 1, pad + dmr_ref.octets_per_block(rate, conf)}):
+        if len(P) + k <= top:
+            twins.append((f"trailing_zero_octets_{'within_pad' if k <= pad else 'beyond_pad'}", _explicit(base, P + bytes(k))))
+    stripped = P.rstrip(b"\x00")
+    if stripped != P:
+        twins.append(("trailing_zero_octets_stripped", _explicit(base, stripped)))
+    # equal prefix
+    if P:
+        twins.append(("prefix_one_octet_shorter", _explicit(base, P[:-1])))
+        twins.append(("prefix_half", _explicit(base, P[: len(P) // 2])))
+    if len(P) + 1 <= top:
+        twins.append(("prefix_one_octet_longer", _explicit(base, P + b"\x01")))
+    if 0 < 2 * len(P) <= top:
+        twins.append(("prefix_doubled", _explicit(base, P + P)))
+    # equal length, other content
+    if P:
+        twins.append(("same_length_last_octet_differs", _explicit(base, P[:-1] + bytes([P[-1] ^ 0x01]))))
+        twins.append(("same_length_first_octet_differs", _explicit(base, bytes([P[0] ^ 0x80]) + P[1:])))
+        twins.append(("same_length_last_octet_zero", _explicit(base, P[:-1] + b"\x00")))
+        twins.append(("same_length_complemented", _explicit(base, bytes(b ^ 0xFF for b in P))))
+    # equal content, other configuration
+    for r in dmr_ref.RATES:
+        if r != rate and dmr_ref.fragment(len(P), r, conf)[0] <= dmr_ref.MAX_BLOCKS_TO_FOLLOW:
+            twins.append(("same_payload_other_rate", {**base, "rate": r}))
+    if dmr_ref.fragment(len(P), rate, not conf)[0] <= dmr_ref.MAX_BLOCKS_TO_FOLLOW:
+        twins.append(("same_payload_other_mode", {**base, "confirmed": not conf, "ns": 0, "fsn": 0 if conf else 8, "dpf": None}))
+    twins.append(("same_payload_other_colour_code", {**base, "cc": (base.get("cc", 1) + 1) % 16}))
+    twins.append(("same_payload_other_preamble_count", {**base, "preambles": 0 if base["preambles"] else 2}))
+    twins.append(("same_payload_other_header_fields", {**base, "dst": base.get("src", 2), "src": base.get("dst", 1), "group": not base.get("group", False), "sap": "ShortData" if base.get("sap") != "ShortData" else "ARP",
+                                                       "ts": 3 - base.get("ts", 1), "full": 1 - base.get("full", 1)}))
+    out = []
+    for label, t in twins:
+        t = {k: v for k, v in t.items() if v is not None}
+        out += [(label + "/base_then_twin", [base, t]), (label + "/twin_then_base", [t, base])]
+        if label.startswith("trailing_zero") or label.startswith("same_payload_other_mode") or label == "same_length_last_octet_zero":
+            out.append((label + "/base_twin_base", [base, t, base]))
+    out += [("identical/twice", [base, base]), ("identical/three_times", [base, base, base])]
+    zero_twin = twins[0][1] if twins and twins[0][0].startswith("trailing_zero") else base
+    for kind in STIMULI:
+        st = {**base, "stim": kind}
+        out.append((f"stimulus_{kind}/then_base", [st, base]))
+        if kind in ("wrong_poc", "direct", "scribble", "feed_objects"):
+            out.append((f"stimulus_{kind}/base_stimulus_base", [base, st, base]))
+            out.append((f"stimulus_{kind}/on_zero_twin_then_base", [{**zero_twin, "stim": kind}, base]))
+            out.append((f"stimulus_{kind}/on_base_then_zero_twin", [st, {k: v for k, v in zero_twin.items() if k != "stim"}]))
+    return out
+
+
+def _seq_record(sub):
+    def rec(case, t: Tally, label=None):
+        steps = [s for s in case["seq"] if "stim" not in s]
+        digest = hashlib.blake2b(repr([(s.get("stim"), s["rate"], s["confirmed"], expand_payload(s["payload"]).hex(), s.get("preambles"), s.get("cc"), s.get("ts"), s.get("dst"), s.get("sap"))
+                                       for s in case["seq"]]).encode(), digest_size=8).hexdigest()
+        t.case(sub, key={"seq": digest, "shared": bool(case.get("shared_terminal"))}, nontrivial=len(case["seq"]) >= 2 and bool(steps))
+        t.cls(sub, f"steps_{len(case['seq'])}")
+        t.cls(sub, f"judged_transmissions_{len(steps)}")
+        t.cls(sub, "received_on_one_terminal" if case.get("shared_terminal") else "received_on_separate_terminals")
+        if any("stim" in s for s in case["seq"]):
+            t.cls(sub, "with_stimulus_step")
+        for s in steps[:1]:
+            t.cls(sub, f"rate_{s['rate']}_{'confirmed' if s['confirmed'] else 'unconfirmed'}")
+        if label:
+            t.cls(sub, "relation_" + label)
+
+    return rec
+
+
+def drv_consecutive(ctx: Ctx, sub: SubCheck):
+    """(a) directed: for every slice, base payloads of 9 lengths (empty, 1 octet, within the first block with pad > 0, exact
+    fit of 1 / 2 blocks, one over / one under a boundary, 50 octets, 6 blocks) whose last octet is not zero (two of them: all-zero
+    payloads), every relation of twin_sequences.  (b) Hypothesis: base case from the 'random' strategy (lengths up to 300),
+    relation and order drawn."""
+    rng = ctx.rng("consecutive")
+    items = []
+    k = 0
+    for si, (rate, conf) in enumerate(SLICES):
+        per = dmr_ref.octets_per_block(rate, conf)
+        cap = lambda n: n * per - 4
+        for li, length in enumerate([0, 1, max(2, cap(1) - 3), cap(1), cap(1) + 1, cap(2) - 1, cap(2), 50, cap(6) - 2]):
+            k += 1
+            P = bytearray(expand_payload({"prng": rng.getrandbits(32), "len": length}))
+            if li in (3, 7):
+                P = bytearray(length)  # all-zero datagram: equal to its own padding
+            elif P and P[-1] == 0:
+                P[-1] = 0x5A
+            base = {"rate": rate, "confirmed": conf, "payload": {"hex": bytes(P).hex()}, "preambles": k % 3, "cc": k % 16, "ts": 1 + k % 2, "dst": 1 + rng.getrandbits(23), "src": 1 + rng.getrandbits(23),
+                    "group": bool(k % 2), "sap": SAPS[k % len(SAPS)], "full": k % 2, "resync": 0, "ns": k % 8 if conf else 0, "fsn": (8 + k % 8) if conf else 0}
+            for label, seq in twin_sequences(base):
+                items.append(({"seq": seq, "shared_terminal": True} if len(items) % 2 else {"seq": seq}, label))
+    items.sort(key=lambda it: -sum(len(s["payload"].get("hex", "")) for s in it[0]["seq"]))
+    chunks = [items[i::64] for i in range(64)]
+    rec = _seq_record(sub.name)
+
+    def work(chunk, t: Tally):
+        for case, label in chunk:
+            if ctx.run_case(sub.name, oracle_seq, case, t):
+                rec(case, t, label.split("/")[0])
+                t.cls(sub.name, "order_" + label.split("/")[1])
+            else:
+                t.case(sub.name, cls="failing")
+
+    ctx.shards(work, [c for c in chunks if c])
+
+    from hypothesis import strategies as st
+
+    build = _strategy(max_len=300)
+
+    def seqs(rc):
+        def pick(base):
+            options = twin_sequences(base)
+            return st.tuples(st.integers(0, len(options) - 1), st.booleans()).map(lambda p: {"seq": options[p[0]][1], "shared_terminal": True} if p[1] else {"seq": options[p[0]][1]})
+
+        return build(rc).flatmap(pick)
+
+    def hyp(shard, t: Tally):
+        rc = SLICES[shard % len(SLICES)]
+        ctx.hypothesis(sub.name, seqs(rc), oracle_seq, ctx.pick(20, 300), tally=t, shard=shard, record=lambda c, tt: rec(c, tt, None))
+
+    ctx.shards(hyp, list(range(ctx.pick(18, 36))))
+    ctx.tally.notes.append("consecutive: every transmission step of a sequence is judged by the complete single-transmission oracle; stimulus steps are not judged")
+
+
+# ---------------------------------------------------------------------------------------------- preludes (stimulus only)
+
+
+def _op_generate(a):
+    """generate and receive a transmission, ignore the outcome"""
+    try:
+        if "stim" in a:
+            _stimulus(a)
+        else:
+            oracle(a)
+    except BaseException as e:
+        if isinstance(e, (KeyboardInterrupt, SystemExit, MemoryError)):
+            raise
+
+
+PRELUDE_OPS = {"generate": _op_generate}
+PRELUDE_GROUPS = ("crc", "burst", "pdu")
+
+
+def prelude_for(sub, case, rng):
+    """between the two judgements of a single transmission: near-twins of it (and stimuli on it) through the generator -
+    three relations of twin_sequences drawn with ``rng``, plus the zero-extended twin and a refused call when they exist"""
+    if not isinstance(case, dict) or "seq" in case or "payload" not in case:
+        return []
+    if len(expand_payload(case["payload"])) > 400:
+        base = {**case, "payload": {"hex": expand_payload(case["payload"])[:97].hex()}}  # keep preludes cheap: a short prefix twin of a long datagram
+        options = [("prefix_short", [base])] + twin_sequences(base)
+    else:
+        options = twin_sequences(case)
+    steps = []
+    fixed = [seq for label, seq in options if label in ("trailing_zero_octets_within_pad/twin_then_base", "trailing_zero_octets_beyond_pad/twin_then_base", "stimulus_wrong_poc/then_base")]
+    for seq in fixed[:2] + [options[rng.randrange(len(options))][1] for _ in range(3)]:
+        steps.append(seq[0])  # the twin / stimulus step that precedes the base
+    return [{"x": "generate", "a": s} for s in steps]
+
+
 SUBCHECKS = [
     SubCheck("lengths", oracle, drv_lengths, "enumerated payload lengths (all lengths of 1..8 blocks, boundary triples for 26 block counts up to 127; thorough: every length 0..1500) x 3 rates x 2 modes x preamble counts {0,1,2,16} through generator -> bytes -> receiver"),
     SubCheck("crc_extremes", oracle, drv_crc_extremes, "directed: payloads constructed so that the packet CRC-32 is 00000000 / FFFFFFFF / 00000001 / 80000000 or an intermediate confirmed block's CRC-9 field is 000 / 1FF"),
@@ -577,5 +862,6 @@ SUBCHECKS = [
     SubCheck("structured_payloads", oracle, drv_structured, "directed: short records repeated (period = every block size in use -> identical adjacent blocks; periods 1,2,3,7) and marker octets of the enclosing layers (10 SYNC words, own data header, preamble CSBK) inside the payload at start / block boundary / offset 13 / end, 6 slices"),
     SubCheck("short_boundary_payloads", oracle, drv_short_boundary, "directed: SAP UDP/IP compression, payload lengths 0..12, first six octets from {00,01,7F,80,81,FF} on two positions at a time ((3,4) complete) x 3 rates x 2 modes"),
     SubCheck("random", oracle, drv_random, "Hypothesis: all case fields drawn, lengths weighted to block boundaries"),
+    SubCheck("consecutive", oracle_seq, drv_consecutive, "sequences of 2-3 steps in one process: a transmission and a near-twin (equal after zero padding, equal prefix, equal length, equal payload with other rate / mode / colour code / preambles / header fields) in both orders, the same transmission repeated, and a transmission after a stimulus (refused call with a wrong pad count / wrong type, generate_data_bursts called directly, generated objects fed to a terminal or altered by the caller); every transmission judged by the complete receive oracle; directed over 6 slices x 9 lengths x all relations, plus Hypothesis"),
 ]
 PREDICATES = {}
